@@ -486,6 +486,12 @@ class FaceVariable:
                                 np.logical_or(self._yvalue, other),
                                 np.logical_or(self._zvalue, other))
 
+    def __rand__(self, other):
+        return self.__and__(other)
+
+    def __ror__(self, other):
+        return self.__or__(other)
+
     def __abs__(self):
         return FaceVariable(self.domain, np.abs(self._xvalue),
                             np.abs(self._yvalue),
